@@ -272,7 +272,28 @@ void CPCA(tensor *x, int scaling, size_t npc, CPCAMODEL *model)
       MT_MatrixDVectorDotProduct(T, w_T, t_new);
      
       /* check for convergence */
-      if(calcConvergence(t_new, t) < CPCACONVERGENCE){
+      double conv = calcConvergence(t_new, t);
+      if(_isnan_(conv)){
+        /* The block residuals are exhausted (null super score, e.g. more
+         * components requested than the rank of the data): this component is
+         * not defined. Store a null component instead of iterating forever. */
+        MatrixSet(T, 0.f);
+        TensorAppendMatrix(model->block_scores, T);
+        /* super scores, super weights and block loadings of this component
+         * are already zero */
+        NewDVector(&local_blockvexp, Eb->order);
+        if(model->block_expvar->size > 0){
+          /* cumulative: nothing more is explained */
+          for(k = 0; k < Eb->order; k++)
+            local_blockvexp->data[k] = model->block_expvar->d[model->block_expvar->size-1]->data[k];
+        }
+        DVectorAppend(model->total_expvar, 0.f);
+        DVectorListAppend(model->block_expvar, local_blockvexp);
+        DelDVector(&local_blockvexp);
+        break;
+      }
+
+      if(conv < CPCACONVERGENCE){
         #ifdef DEBUG
         printf("new score calculated\n");
         printf("pc: %zu\n", pc);
